@@ -1460,6 +1460,11 @@ RF("RF-head-first-lookup-with-offset", ALL19, [("@patch", "selftest/refactors/RF
 for _p in sorted(_glob.glob(_os.path.join(_os.path.dirname(_os.path.abspath(__file__)), "refactors", "rf4", "*.diff"))):
     RF("RF4-" + _os.path.basename(_p)[:-5], ALL19, [("@patch", "selftest/refactors/rf4/" + _os.path.basename(_p), "")])
 
+# fifth round: refactorings of data representation and control skeleton (enums for flags, Option <-> value + flag, private
+# structs and newtypes, fields moved between structs, functions <-> methods, per-arm functions behind a dispatcher)
+for _p in sorted(_glob.glob(_os.path.join(_os.path.dirname(_os.path.abspath(__file__)), "refactors", "rf5", "*.diff"))):
+    RF("RF5-" + _os.path.basename(_p)[:-5], ALL19, [("@patch", "selftest/refactors/rf5/" + _os.path.basename(_p), "")])
+
 
 # Behaviour-preserving refactorings on which a check is *known* to fail closed (documented in DESIGN.md §6.5 / §8): the
 # property still holds; the construct the rewrite introduces is outside what the analysis can resolve.  They stay in the
